@@ -92,7 +92,9 @@ pub fn cmp_rec(i: usize, a: &Rec, b: &Rec, o: &CmpOpts) -> Option<Divergence> {
     }
     if o.events {
         if o.exact_messages {
-            if a.events != b.events {
+            // the order in which different variables' observers are notified after one continue is not
+            // specified (the engine keeps the changed set in a hash map): compare those as a multiset
+            if canon_events(&a.events) != canon_events(&b.events) {
                 return d("events", json!(a.events), json!(b.events));
             }
         } else if a.events.len() != b.events.len() {
@@ -175,4 +177,89 @@ pub fn mid_diff(a: &str, b: &str) -> (String, String) {
         ac[p..ac.len() - s].iter().collect(),
         bc[p..bc.len() - s].iter().collect(),
     )
+}
+
+use crate::player::{HostCfg, Op, Player, Snap};
+use crate::programs::Compiled;
+
+pub struct Injection {
+    pub injected: Vec<Rec>,
+    pub before: Snap,
+    pub after: Snap,
+    pub state_before: FullState,
+    pub state_after: FullState,
+    pub save_before: Option<Value>,
+    pub save_after: Option<Value>,
+    pub fp_before: String,
+    pub fp_after: String,
+    /// first divergence of the remaining history from the control
+    pub later: Option<Divergence>,
+    pub treated_tail: Vec<Rec>,
+    pub final_state: FullState,
+    pub fuel: bool,
+}
+
+/// Replays `ops[..=b]`, performs `extra`, then replays the rest comparing each record with `control`.
+/// `b == usize::MAX` means: inject before the first op.
+pub fn inject(
+    c: &Compiled,
+    host: &HostCfg,
+    ops: &[Op],
+    control: &[Rec],
+    b: usize,
+    extra: &[Op],
+    opts: &CmpOpts,
+    with_saves: bool,
+) -> Result<Injection, String> {
+    let mut p = Player::new(c.json.clone(), c.info.clone(), host.clone())?;
+    let start = if b == usize::MAX { 0 } else { b + 1 };
+    for op in &ops[..start] {
+        p.apply(op);
+    }
+    let before = p.snap();
+    let state_before = p.full_state();
+    let fp_before = p.story.verif_fingerprint();
+    let save_before = if with_saves { p.canonical_save().ok() } else { None };
+    let mut injected = Vec::new();
+    for e in extra {
+        injected.push(p.apply(e));
+    }
+    let after = p.snap();
+    let state_after = p.full_state();
+    let fp_after = p.story.verif_fingerprint();
+    let save_after = if with_saves { p.canonical_save().ok() } else { None };
+    let mut later = None;
+    let mut treated_tail = Vec::new();
+    for (i, op) in ops.iter().enumerate().skip(start) {
+        let rec = p.apply(op);
+        let d = cmp_rec(i, &control[i], &rec, opts);
+        treated_tail.push(rec);
+        if d.is_some() {
+            later = d;
+            break;
+        }
+    }
+    Ok(Injection {
+        injected,
+        before,
+        after,
+        state_before,
+        state_after,
+        save_before,
+        save_after,
+        fp_before,
+        fp_after,
+        later,
+        treated_tail,
+        final_state: p.full_state(),
+        fuel: p.fuel_hit,
+    })
+}
+
+pub fn canon_events(ev: &[String]) -> Vec<String> {
+    let mut others: Vec<String> = ev.iter().filter(|e| !e.starts_with("obs#")).cloned().collect();
+    let mut obs: Vec<String> = ev.iter().filter(|e| e.starts_with("obs#")).cloned().collect();
+    obs.sort();
+    others.extend(obs);
+    others
 }
